@@ -107,6 +107,19 @@ class SB:
     def __hash__(self):
         return id(self)
 
+    # numeric comparisons (True == 1, False == 0), as for numpy bools
+    def __le__(self, o):
+        return self._num() <= (o._num() if isinstance(o, SB) else o)
+
+    def __lt__(self, o):
+        return self._num() < (o._num() if isinstance(o, SB) else o)
+
+    def __ge__(self, o):
+        return self._num() >= (o._num() if isinstance(o, SB) else o)
+
+    def __gt__(self, o):
+        return self._num() > (o._num() if isinstance(o, SB) else o)
+
     def __repr__(self):
         return f"SB({self.e})"
 
